@@ -605,7 +605,7 @@ theorem cex_skipped_batch_below :
     ¬ inWindow (window ⟨50, 200⟩ (some cexSkipPts) ⟨55, 55⟩) 305 ∧ ¬ ((lastD cexSkipPts).ts ≤ cexSkipTs 305) := by
   decide
 
-/-- Finding #62 (open; placeholder id): MONOTONE data, but the index notifications of two batches arrive in the other order
+/-- Finding #85 (open; placeholder id): MONOTONE data, but the index notifications of two batches arrive in the other order
 than the batches were stored (concurrent writers; `Service.Write` notifies after the chunk's write lock is gone). Batch A =
 records 0…299 (ts 1000 + q), batch B = 300…599, batch C = 600…899, D = 900…1199 — all with ts = 1000 + q. Notifications
 arrive A, C, B, D: B's interval is merged behind C's point and the last point becomes (C's maximum, B's LAST RECORD);
